@@ -128,6 +128,7 @@ func (fv *FuncVerifier) takeEdge(st *State, from, to *ssa.BasicBlock) bool {
 	// loop entry
 	st.prev = from
 	fv.promoteLocalObjects(st)
+	li.entry = st.clone()
 	env := fv.invEnv(st, li)
 	if li.lc != nil {
 		basePC := st.pc
@@ -1201,6 +1202,11 @@ func (fv *FuncVerifier) typeAssert(st *State, x *ssa.TypeAssert) Value {
 	} else {
 		ok = Eq(typ, fv.enc.typeID(x.AssertedType))
 		res = fv.unbox(st, val, x.AssertedType)
+		switch x.AssertedType.Underlying().(type) {
+		case *types.Pointer, *types.Map, *types.Chan:
+			// a reference held in an interface designates an object that exists
+			st.assume(Implies(ok, Lt(val, st.hwm)))
+		}
 	}
 	if x.CommaOk {
 		// result tuple (value, ok); value is zero when !ok
@@ -1249,6 +1255,20 @@ func (fv *FuncVerifier) lookup(st *State, x *ssa.Lookup) Value {
 			}
 		}
 	}
+	// the value read: the integer-sorted words of the entry; the zero value when there is none
+	if key, kok := fv.enc.mapKey(st.get(x.Index)); kok {
+		m := st.get(x.X)
+		if mt, isMap := m.Typ.Underlying().(*types.Map); isMap && m.Place == nil && len(m.L) == 1 {
+			ver := Select(st.heapArr("M_content", SArr), m.L[0])
+			for i, l := range flatten(mt.Elem()) {
+				if l.Sort != SInt || i >= len(res.L) || res.L[i].Sort != SInt {
+					continue
+				}
+				st.assume(Eq(res.L[i], st.mval(ver, key, i)))
+				st.assume(Implies(Or(Eq(m.L[0], I(0)), Not(st.mhas(ver, key))), Eq(res.L[i], I(0))))
+			}
+		}
+	}
 	return res
 }
 
@@ -1259,7 +1279,11 @@ func (fv *FuncVerifier) mapUpdate(st *State, x *ssa.MapUpdate) {
 		fv.addOb(st, "nil", fmt.Sprintf("nilmap[%s]", fv.valName(x.Map)), Not(Eq(m.L[0], I(0))), "assignment to entry in nil map", x.Pos())
 	}
 	if key, kok := fv.enc.mapKey(st.get(x.Key)); kok {
-		fv.mapSetKey(st, x.Map, key, true)
+		sv := st.get(x.Value)
+		if sv.Place != nil && sv.Place.Kind == PLocal {
+			sv = st.promote(sv)
+		}
+		fv.mapSetKey(st, x.Map, key, true, &sv)
 	} else {
 		fv.markMapDirty(st, x.Map)
 	}
